@@ -46,6 +46,20 @@ CHECK_TEXT["C10"] = {
     "technique": "contract-based deductive verification: Verus (Z3), inductive loop invariants over an abstract heap view, ghost history variables",
 }
 
+CHECK_TEXT["C16"] = {
+    "text": ("Proof of the admission policy on the real function bodies of policy.rs (extracted every run) against an abstract contract of Lru: "
+             "on_write / unpin / attempt_to_trim_overflowing_pinned / on_read_hit / on_removed keep the representation invariant, "
+             "forget a key ONLY after the owner confirmed its removal (remove(k) returned true) or on an explicit Removed message, park a key in the pinned "
+             "region only when the owner refused, keep window+probation+protected <= max_capacity after every operation (unbounded induction, all access "
+             "sequences), and never panic (every unwrap() is a discharged obligation -- this is how finding F3 was found and fixed). "
+             "sketch.rs: every index in bounds, no overflow, 4-bit counters never carry (Verus + Kani on a full-domain word). "
+             "The Lru contract itself is checked on the real raw-pointer Lru by a bounded exhaustive conformance run (labelled bounded)."),
+    "design_ref": "DESIGN.md section 5 (C16), section 7 (F3)",
+    "note": ("ASSUMED: the abstract Lru contract (bounded-checked only), the remove closure's meaning, key Clone, 64-bit usize. NOT decided: concurrent buffers between "
+             "storage map and policy, DedicatedThread mode, remove_closure/scc::HashMap, the lock-table clause. See evidence.trusted_base."),
+    "technique": "contract-based deductive verification: Verus (Z3) with an assumed data-structure contract, Kani on bit tricks, bounded conformance run of the assumed contract",
+}
+
 NOT_APPLICABLE = {
     "C01": "whole-history property of an async, concurrent engine; no sequential function's contract implies it and neither Verus nor Kani ingests async/tokio/scc code (DESIGN 1, 5)",
     "C02": "quantifies over schedules / single-flight / termination: concurrency and liveness are outside both verifiers (Kani has no threads; Verus would need the code rewritten onto its permission types)",
@@ -63,5 +77,4 @@ PENDING = {
     "C09": "check under construction (DESIGN 5: staging-replay kernel); not claimed until it runs",
     "C13": "check under construction (DESIGN 5: hash framing); not claimed until it runs",
     "C14": "check under construction (DESIGN 5: id plumbing); not claimed until it runs",
-    "C16": "check under construction (DESIGN 5: admission policy); not claimed until it runs",
 }
